@@ -73,6 +73,12 @@ where
     );
     let o_unsub = observer.clone();
 
+    if !self.subscriber.is_subscribed() {
+      // the stream has already ended: an upstream created now must never go live
+      observer.unsubscribe();
+      return observer;
+    }
+
     let mut unsubscribers = self.unscribers.write().unwrap();
     unsubscribers.insert(
       serial.clone(),
